@@ -358,6 +358,36 @@ pub fn run_scenario(job: &Value) -> Value {
                     }
                 } else if let Some(ms) = st.get("settle").and_then(|x| x.as_u64()) {
                     settle(&ctx, ms, deadline);
+                } else if st.get("barrier").is_some() {
+                    // every running top-level session has processed everything that was in its queue: a marker event is
+                    // sent to each and awaited in its log; twice, because processing may have produced sends to the others
+                    for round in 0..2 {
+                        let marker = format!("__sync.{}.{}", ctx.us(), round);
+                        let targets: Vec<(String, Arc<SessLog>, Sender<Box<Event>>)> = env
+                            .started
+                            .lock()
+                            .unwrap()
+                            .iter()
+                            .filter(|(_, s)| s.thread.as_ref().map(|t| !t.is_finished()).unwrap_or(false))
+                            .map(|(n, s)| (n.clone(), s.log.clone(), s.sender.clone()))
+                            .collect();
+                        for (_, _, snd) in &targets {
+                            let _ = snd.send(Box::new(Event::new_simple(&marker)));
+                        }
+                        for (name, log, _) in &targets {
+                            while Instant::now() < deadline {
+                                let seen = log.recs.lock().unwrap().iter().rev().take(400).any(|r| {
+                                    r.get(0).and_then(|x| x.as_str()) == Some("XR")
+                                        && r.get(1).and_then(|e| e.get("name")).and_then(|x| x.as_str()) == Some(marker.as_str())
+                                }) || *log.ended.lock().unwrap();
+                                let gone = env.started.lock().unwrap().get(name).map(|s| s.thread.as_ref().map(|t| t.is_finished()).unwrap_or(true)).unwrap_or(true);
+                                if seen || gone {
+                                    break;
+                                }
+                                std::thread::sleep(Duration::from_millis(1));
+                            }
+                        }
+                    }
                 } else if let Some(name) = st.get("await_end").and_then(|x| x.as_str()) {
                     // until the session's thread has ended (bounded by the scenario deadline)
                     while Instant::now() < deadline {
